@@ -257,7 +257,8 @@ impl ChildLimit {
     if forward {
       term = term.next(2);
     }
-    let info: ChildLimitInfo = CHILD_LIMIT_PROVIDER.lock().unwrap().get_info(birth_time, term);
+    // 计算失败（如结束时间超出支持范围）时的panic不应使后续调用全部失败，忽略锁中毒
+    let info: ChildLimitInfo = CHILD_LIMIT_PROVIDER.lock().unwrap_or_else(|e| e.into_inner()).get_info(birth_time, term);
 
     Self {
       eight_char,
